@@ -8,6 +8,9 @@ A case:
 The impl observation lists, step by step, the choice made, the label executed and the set of
 choices that were enabled — the model must accept the same choices, produce the same labels and
 offer the same enabled sets, and end with the same per-thread outcomes.
+
+`model_guided` (bottom of the file) goes the other way round: schedules are chosen on the model so that
+they cover its program points, then replayed on the real code (used by `extra(ctx)` of C04/C05).
 """
 import logging
 import random
@@ -240,6 +243,8 @@ def safety_oracle(case, obs):
 def shrink_schedule_case(case, fails):
   """Drop trailing source items / threads while the failure persists (schedules are re-drawn by seed)."""
   import copy
+  if case['sched']['kind'] == 'replay':
+    return case        # a literal schedule belongs to exactly these programs: nothing to re-draw
   cur = case
   changed = True
   while changed:
@@ -252,3 +257,104 @@ def shrink_schedule_case(case, fails):
           cur, changed = c, True
           break
   return cur
+
+
+# ------------------------------------------------------------------ model-guided stage (extra)
+
+def cover_request(cfg, seed, walks, max_len):
+  return dict(model='queue', op='cover', cap=cfg['cap'], max_enq=cfg['max_enq'], timeout=cfg['timeout'],
+              ignore_error=False, threads=cfg['threads'], seed=seed, walks=walks, max_len=max_len)
+
+
+def model_guided(ctx, configs, seed, unreachable=None, oracle=None, walks=None, max_len=600, stage='model_guided'):
+  """Program-point coverage of the Lean LTS, measured on schedules the REAL code executes.
+
+  For every configuration {cap, max_enq, timeout, threads} the driver (`"op": "cover"`) runs seeded
+  random walks on the model and returns a small set of schedules that together reach every program
+  point (`Pc` constructor; the timeout alternative of a parked wait is a point of its own) reached by
+  any walk.  Each schedule is replayed choice by choice on the real IteratorQueue (`run_real`, strict
+  replay), the observation is compared with the model's replay of the same choices (`compare`: every
+  label, every enabled set, the final thread outcomes) and, for walks that ran to the end, checked by
+  the property's `oracle`.  A program point counts as executed by the real code only if it lies on a
+  schedule whose comparison passed.
+
+  Recorded: ctx.count('pc', name) per executed point, ctx.count('pc_unreached', name) per point of the
+  model no replayed schedule reached.  Failures: a disagreement / rejected schedule goes to
+  ctx.extra_disagreements, an oracle failure to ctx.extra_oracle_failures (both fail the check); a
+  point that is neither reached nor listed in `unreachable` ({name: reason}) is a broken coverage
+  promise of the stage -> InfraError (as C19's branch promise).
+  """
+  import time
+  from harness.core import InfraError
+  t0 = time.time()
+  unreachable = dict(unreachable or {})
+  walks = walks or (300 if ctx.quick else 3000)
+  covers = ctx.lean.ask_many([cover_request(cfg, seed * 1000 + k, walks, max_len) for k, cfg in enumerate(configs)])
+  for cfg, cv in zip(configs, covers):
+    if 'driver_error' in cv:
+      raise InfraError(f'driver rejected cover request {cfg}: {cv}')
+  cases, runs, ends = [], [], []
+  for k, (cfg, cv) in enumerate(zip(configs, covers)):
+    ctx.count('model_guided:walk_end', 'done', cv['walks_done'])
+    ctx.count('model_guided:walk_end', 'other', cv['walks'] - cv['walks_done'])
+    for sch, end in zip(cv['schedules'], cv['ends']):
+      case = dict(cap=cfg['cap'], max_enq=cfg['max_enq'], timeout=cfg['timeout'], threads=cfg['threads'],
+                  sched=dict(kind='replay', choices=sch), model_guided=dict(config=k, end=end))
+      cases.append(case)
+      runs.append(run_real(case))
+      ends.append(end)
+  reqs = []
+  for case, obs in zip(cases, runs):
+    r = model_requests_obs(case, obs)[0]
+    r['want_pcs'] = True
+    reqs.append(r)
+  resps = ctx.lean.ask_many(reqs)
+  all_pcs = sorted({n for cv in covers for n in cv['all_pcs']})
+  reached, bad = set(), 0
+  for case, obs, end, r in zip(cases, runs, ends, resps):
+    if 'driver_error' in r:
+      raise InfraError(f'driver rejected replay of {jshort(case)}: {r}')
+    ctx.extra_evals += 1
+    m = model_obs(case, [r])
+    why = compare(obs, m)
+    want = case['sched']['choices']
+    took = [c[0] if c[1] is None else [c[0], c[1]] for c in obs['choices']]
+    if why is None and took != want:
+      why = f'real code executed {len(took)} of the {len(want)} scheduled choices'
+    if why is None and end in ('done', 'deadlock') and obs['outcome'] != end:
+      why = f"the model's walk ends in {end}, the real code in {obs['outcome']}"
+    if why is not None:
+      bad += 1
+      ctx.extra_disagreements.append((stage, case, dict(impl=obs, model=m, why=why)))
+      continue
+    if oracle is not None and end != 'max_len':
+      w = oracle(case, obs)
+      if w is not None:
+        ctx.extra_oracle_failures.append((case, w))
+    ctx.count('model_guided:replayed', end)
+    for name in r['pc_trace']:
+      ctx.count('pc', name)
+      reached.add(name)
+  ctx.hist.setdefault('pc', {})
+  ctx.hist.setdefault('pc_unreached', {})
+  missing = []
+  for name in all_pcs:
+    if name not in reached:
+      ctx.count('pc_unreached', name)
+      if name not in unreachable:
+        missing.append(name)
+  surprise = sorted(n for n in unreachable if n in reached)
+  wall = time.time() - t0
+  ctx.notes.append(
+      f'{stage}: {len(configs)} configurations x {walks} model walks -> {len(cases)} covering schedules replayed on the '
+      f'real code ({bad} disagree); program points executed by the real code {len(reached)}/{len(all_pcs)}; '
+      f'unreachable in this setting (by construction) {sorted(unreachable)}; '
+      f'reached although listed unreachable {surprise}; stage wall {wall:.1f}s')
+  if missing and not bad:
+    raise InfraError(f'{stage}: program points promised but not reached by any replayed schedule: {missing}')
+  return dict(reached=sorted(reached), missing=missing, all_pcs=all_pcs, schedules=len(cases), wall=wall)
+
+
+def jshort(x, n=400):
+  import json
+  return json.dumps(x, sort_keys=True, default=str)[:n]
